@@ -14,4 +14,4 @@ CONSTANTS
 INIT Init
 NEXT Next
 VIEW View
-INVARIANTS NonceUnique OnlyOnce
+PROPERTIES NonceUniqueA OnlyOnceA
